@@ -218,7 +218,7 @@ Section Policy.
     is_cacheable status_known e = true <-> StorableShared e.
   Proof.
     unfold is_cacheable, SxgPolicy.StorableShared, has_dir. rewrite cache_directives_eq.
-    set (ds := directive_names (hdr_value (e_resph e) (s2b "Cache-Control"))).
+    set (ds := directive_names (hdr_value_ci (e_resph e) (s2b "Cache-Control"))).
     destruct (status_known (e_status e)); cbn [negb]; [|split; [discriminate|intros [H _]; discriminate]].
     destruct (has_directive ds "no-store") eqn:E1.
     { apply has_directive_iff in E1. split; [discriminate|]. intros (_ & H & _). contradiction. }
@@ -226,7 +226,7 @@ Section Policy.
     destruct (has_directive ds "private") eqn:E2.
     { apply has_directive_iff in E2. split; [discriminate|]. intros (_ & _ & H & _). contradiction. }
     apply has_directive_false_iff in E2.
-    destruct (hdr_value (e_resph e) (s2b "Expires")) as [|c0 ex] eqn:E3; cbn [negb].
+    destruct (hdr_value_ci (e_resph e) (s2b "Expires")) as [|c0 ex] eqn:E3; cbn [negb].
     2:{ split; [|reflexivity]. intros _. repeat split; try assumption. left. discriminate. }
     destruct (has_directive ds "max-age") eqn:E4.
     { apply has_directive_iff in E4. split; [|reflexivity]. intros _. repeat split; try assumption. tauto. }
